@@ -11,12 +11,14 @@ package main
 //      and one burst through the HTTP handler in real time
 
 import (
+	"encoding/json"
 	"fmt"
 	"io/ioutil"
 	"math"
 	"math/big"
 	"math/rand"
 	"net/http"
+	"net/http/httptest"
 	"net/url"
 	"path/filepath"
 	"strconv"
@@ -25,6 +27,7 @@ import (
 	"testing"
 	"time"
 
+	"github.com/Cloud-Foundations/keymaster/lib/authenticators/okta"
 	"github.com/Cloud-Foundations/keymaster/lib/simplestorage"
 	"github.com/pquerna/otp/totp"
 	"golang.org/x/time/rate"
@@ -715,7 +718,7 @@ Definition first_n_called (n : nat) (l : list (Z * Z * bool)) : bool := forallb 
 	}
 	var lks []lkObs
 	{
-		const eBurst, eRate = 10, 1.0
+		const eBurst, eRate = 16, 1.0
 		pats := [][]int{{1, 1, 1}, {1, 0, 0}, {0, 0, 0}, {1, 1, 0}}
 		modes := []struct {
 			name string
@@ -725,9 +728,9 @@ Definition first_n_called (n : nat) (l : list (Z * Z * bool)) : bool := forallb 
 			{"backend-failing-intermittently", func(i int) []int { return pats[rng.Intn(len(pats))] }},
 			{"backend-failing-on-first-lookup", func(i int) []int { return pats[1] }},
 		}
-		nSeq, nFlight := 24, 24
+		nSeq, nFlight := 8, 24
 		if thorough {
-			nSeq, nFlight = 60, 60
+			nSeq, nFlight = 8, 60
 		}
 		for mi, md := range modes {
 			eenv := verifSetup(t, func(c *AppConfigFile, dir string) {
@@ -865,6 +868,221 @@ Definition c14_lookup_violating := Eval vm_compute in filter (fun i => lk_violat
 Print c14_lookup_violating.
 `)
 		ioutil.WriteFile(filepath.Join(verifOut(), "CasesC14_lookup.idx"), []byte(lidx.String()), 0644)
+	}
+	// phase 5: the Okta password backend (lib/authenticators/okta, the real PasswordAuthenticator) against a
+	// local stand-in for the authn endpoint.  A lookup is one HTTP request to that endpoint; what it answers
+	// (200 SUCCESS / MFA_REQUIRED / another status word / an undecodable body, 401, 403, 429, 5xx) is the
+	// answer stream of the model (okta_answer).  The limiter must come first here too (the endpoint reads
+	// the limiter while it is being asked), and one token buys one request to the identity provider.
+	{
+		type oResp struct {
+			http int
+			body int // 0 SUCCESS 1 MFA_REQUIRED 2 another status word 3 undecodable; -1 = honest (200 SUCCESS / 401 by the password)
+		}
+		kinds := []oResp{{0, -1}, {500, 2}, {503, 2}, {429, 2}, {403, 2}, {200, 2}, {200, 3}, {200, 1}, {401, 2}, {200, 0}}
+		const oBurst, oRate = 30, 1.0
+		oenv := verifSetup(t, func(c *AppConfigFile, dir string) {
+			c.Base.AllowedAuthBackendsForWebUI = []string{"password"}
+			c.Base.AllowedAuthBackendsForCerts = []string{"U2F"}
+			c.Base.PasswordAttemptGlobalBurstLimit = oBurst
+			c.Base.PasswordAttemptGlobalRateLimit = oRate
+		})
+		lim := oenv.state.passwordAttemptGlobalLimiter
+		var omu sync.Mutex
+		oSeen := map[string]int{}
+		oScript := map[string][]oResp{}
+		oTokens := map[string][]float64{}
+		oCalls := 0
+		fake := httptest.NewServer(http.HandlerFunc(func(w http.ResponseWriter, r *http.Request) {
+			var in struct {
+				Username string `json:"username"`
+				Password string `json:"password"`
+			}
+			json.NewDecoder(r.Body).Decode(&in)
+			omu.Lock()
+			k := oSeen[in.Username]
+			oSeen[in.Username]++
+			oCalls++
+			oTokens[in.Username] = append(oTokens[in.Username], lim.Tokens())
+			rs := oResp{0, -1}
+			if pat := oScript[in.Username]; len(pat) > 0 {
+				if k >= len(pat) {
+					k = len(pat) - 1
+				}
+				rs = pat[k]
+			}
+			omu.Unlock()
+			if rs.body == -1 {
+				rs = oResp{401, 2}
+				if in.Password == "good-"+in.Username {
+					rs = oResp{200, 0}
+				}
+			}
+			w.Header().Set("Content-Type", "application/json")
+			w.WriteHeader(rs.http)
+			switch rs.body {
+			case 0:
+				fmt.Fprintf(w, `{"status":"SUCCESS","expiresAt":"%s"}`, time.Now().Add(time.Minute).Format(time.RFC3339))
+			case 1:
+				fmt.Fprintf(w, `{"status":"MFA_REQUIRED","stateToken":"verif","expiresAt":"%s"}`, time.Now().Add(time.Minute).Format(time.RFC3339))
+			case 2:
+				fmt.Fprint(w, `{"status":"LOCKED_OUT"}`)
+			default:
+				fmt.Fprint(w, `<html>gateway`)
+			}
+		}))
+		defer fake.Close()
+		pa, err := okta.NewPublicTesting(fake.URL+"/api/v1/authn", logger)
+		if err != nil {
+			t.Fatal(err)
+		}
+		oenv.state.passwordChecker = pa
+		type oObs struct {
+			entry        string
+			good         bool
+			pat          []oResp
+			status, seen int
+			before       float64
+			atLookup     []float64
+		}
+		one := func(i int, pat []oResp) oObs {
+			entry := entries[i%3]
+			user := fmt.Sprintf("okta%d", i)
+			good := i%4 == 1
+			pw := "bad"
+			if good {
+				pw = "good-" + user
+			}
+			omu.Lock()
+			oScript[user] = pat
+			omu.Unlock()
+			var req *http.Request
+			switch entry {
+			case "form":
+				f := url.Values{}
+				f.Set("username", user)
+				f.Set("password", pw)
+				req = verifNewRequest("POST", "/api/v0/login", f)
+			case "login-basic":
+				req = verifNewRequest("POST", "/api/v0/login", url.Values{})
+				req.SetBasicAuth(user, pw)
+			default:
+				req = verifNewRequest("GET", profilePath, nil)
+				req.SetBasicAuth(user, pw)
+			}
+			o := oObs{entry: entry, good: good, pat: pat, before: lim.Tokens()}
+			rr, _ := oenv.serve(req)
+			o.status = rr.Code
+			omu.Lock()
+			o.seen = oSeen[user]
+			o.atLookup = append([]float64(nil), oTokens[user]...)
+			omu.Unlock()
+			return o
+		}
+		var got []oObs
+		start := time.Now()
+		// sequential: the first attempts also serve as ordering probe (nothing else touches the limiter)
+		nSeq, nFlight := 20, 24
+		if thorough {
+			nSeq, nFlight = 20, 60
+		}
+		for i := 0; i < nSeq; i++ {
+			kd := kinds[i%len(kinds)]
+			pat := []oResp{kd, kd, kd}
+			if i%2 == 1 {
+				pat = []oResp{kd, {0, -1}, {0, -1}}
+			}
+			o := one(i, pat)
+			if o.status != http.StatusTooManyRequests && len(o.atLookup) > 0 && o.atLookup[0] > o.before-0.5 {
+				res.hit(verifHit{Key: "C14:handler:backend-before-limiter:" + o.entry + ":okta", Oracle: "the limiter is consulted (and charged) before the password backend is asked",
+					What: fmt.Sprintf("%s attempt with Okta as password backend: the limiter held %.3f tokens before the request and still %.3f while the authn endpoint was being asked", o.entry, o.before, o.atLookup[0]),
+					Case: map[string]interface{}{"entry": o.entry, "backend": "okta", "good_password": o.good}})
+			}
+			got = append(got, o)
+		}
+		var wg sync.WaitGroup
+		var mu sync.Mutex
+		for i := nSeq; i < nSeq+nFlight; i++ {
+			kd := kinds[rng.Intn(len(kinds))]
+			pat := []oResp{kd, kinds[rng.Intn(len(kinds))], {0, -1}}
+			wg.Add(1)
+			go func(i int, pat []oResp) {
+				defer wg.Done()
+				o := one(i, pat)
+				mu.Lock()
+				got = append(got, o)
+				mu.Unlock()
+			}(i, pat)
+		}
+		wg.Wait()
+		elapsed := time.Since(start)
+		omu.Lock()
+		lookups := oCalls
+		omu.Unlock()
+		admitted, n429 := 0, 0
+		var oidx strings.Builder
+		coq.WriteString("(* Okta as password backend: (entry, right password, responses of the authn endpoint to successive requests (http status or 0 = honest, body code), status, requests observed) *)\nDefinition okta_cases : list (Z * bool * list (Z * Z) * Z * Z) := [")
+		for i, o := range got {
+			res.bump("handler:okta")
+			res.eval(fmt.Sprintf("okta|%s|%v|%v|%d|%d", o.entry, o.good, o.pat, o.status, o.seen), o.status != http.StatusTooManyRequests)
+			if o.status == http.StatusTooManyRequests {
+				n429++
+				if o.seen != 0 {
+					res.hit(verifHit{Key: "C14:handler:429-with-backend-call:" + o.entry, Oracle: "a refused attempt performs no backend lookup",
+						What: fmt.Sprintf("%s attempt answered 429 but the Okta authn endpoint was asked %d time(s)", o.entry, o.seen), Case: map[string]interface{}{"entry": o.entry, "phase": "okta"}})
+				}
+			} else {
+				admitted++
+				if o.seen != 1 {
+					res.hit(verifHit{Key: "C14:handler:lookups-per-token:okta", Oracle: "an attempt that the limiter lets through costs exactly one backend lookup, whatever the backend answers",
+						What: fmt.Sprintf("%s attempt (answered %d) with Okta as password backend, authn endpoint answering %v to successive requests: %d requests for one limiter token", o.entry, o.status, o.pat, o.seen),
+						Case: map[string]interface{}{"entry": o.entry, "backend": "okta", "responses_http_body": fmt.Sprint(o.pat), "good_password": o.good}, Observed: map[string]interface{}{"status": o.status, "lookups": o.seen}})
+				}
+			}
+			if i > 0 {
+				coq.WriteString(";")
+			}
+			e := 1
+			if o.entry == "form" {
+				e = 0
+			}
+			var ps []string
+			for _, x := range o.pat {
+				ps = append(ps, fmt.Sprintf("(%d,%d)", x.http, x.body))
+			}
+			coq.WriteString(fmt.Sprintf("(%d,%s,[%s],%d,%d)", e, coqBool(o.good), strings.Join(ps, ";"), o.status, o.seen))
+			oidx.WriteString(fmt.Sprintf("okta %d\tentry=%s right-password=%v authn-responses(http,body; 0,-1 = honest)=%v -> status %d, %d requests to the endpoint\n", i, o.entry, o.good, o.pat, o.status, o.seen))
+		}
+		limit := float64(oBurst) + oRate*elapsed.Seconds() + 1
+		res.Extra["lookups:okta"] = map[string]interface{}{"attempts": len(got), "admitted": admitted, "answered_429": n429, "lookups": lookups, "elapsed_s": elapsed.Seconds(), "bound": limit}
+		if float64(lookups) > limit {
+			res.hit(verifHit{Key: "C14:handler:too-many-backend-lookups:okta", Oracle: "backend lookups <= burst + rate*elapsed + 1",
+				What: fmt.Sprintf("%d attempts in %.3fs (burst %d, rate %v/s) with Okta as password backend: the authn endpoint was asked %d times, bound %.2f", len(got), elapsed.Seconds(), oBurst, oRate, lookups, limit),
+				Case: map[string]interface{}{"backend": "okta", "sequential": nSeq, "in_flight": nFlight}, Observed: map[string]interface{}{"lookups": lookups, "bound": limit}})
+		}
+		if admitted < oBurst || n429 == 0 {
+			res.hit(verifHit{Key: "C14:harness:okta-burst", Oracle: "harness", What: fmt.Sprintf("okta: %d let through, %d answered 429", admitted, n429), Case: "okta"})
+		}
+		coq.WriteString(`].
+Definition okta_body_of (b : Z) : okta_body := if b =? 0 then OSuccess else if b =? 1 then OMfaRequired else if b =? 2 then OOtherStatus else OUndecodable.
+Definition okta_ans (good : bool) (x : Z * Z) : backend_answer :=
+  let (h, b) := x in if b =? -1 then (if good then okta_answer 200 OSuccess else okta_answer 401 OOtherStatus) else okta_answer h (okta_body_of b).
+Definition okta_model (c : Z * bool * list (Z * Z) * Z * Z) : login_out :=
+  let '(e, good, pat, st, lk) := c in
+  let s := if st =? 429 then {| last := 0; T := 0 |} else init lk_cfg 0 in
+  snd (login_step_tries code_tries lk_cfg s (if e =? 0 then Form else BasicAuth) 0 (map (okta_ans good) pat)).
+Definition okta_bad (c : Z * bool * list (Z * Z) * Z * Z) : bool :=
+  let '(e, good, pat, st, lk) := c in
+  let o := okta_model c in
+  negb ((lookups o =? lk) && (if status o =? 200 then st <? 400 else status o =? st)).
+Definition okta_violates (c : Z * bool * list (Z * Z) * Z * Z) : bool :=
+  let '(e, good, pat, st, lk) := c in if st =? 429 then 0 <? lk else 1 <? lk.
+Definition c14_okta_mismatches := Eval vm_compute in mismatches okta_bad okta_cases.
+Print c14_okta_mismatches.
+Definition c14_okta_violating := Eval vm_compute in filter (fun i => okta_violates (nth i okta_cases (0, false, [], 429, 0))) c14_okta_mismatches.
+Print c14_okta_violating.
+`)
+		ioutil.WriteFile(filepath.Join(verifOut(), "CasesC14_okta.idx"), []byte(oidx.String()), 0644)
 	}
 	// the whole handler run against the bound
 	{
